@@ -18,12 +18,14 @@ Entitled(op, id, mode) ==
 \* ---- who holds a role *now*: the seven group roles are read from the group account before the instruction
 \* (cells always act in group G1), every other role of the table is fixed by the seed script
 GroupRoleNames == {"admin", "risk_admin", "emode_admin", "curve_admin", "limit_admin", "emissions_admin", "metadata_admin"}
-HolderIn(pre, role) ==
-  IF role \in GroupRoleNames /\ Has(pre, "groups") /\ Has(pre.groups, "G1") THEN pre.groups["G1"][role] ELSE AuthRoles[role]
-HoldersIn(pre, op) == {HolderIn(pre, AuthOps[op].role)} \cup {HolderIn(pre, AuthOps[op].also[i]) : i \in DOMAIN AuthOps[op].also}
+\* (AuthOps[op].grp: the group the cell's base action works in)
+HolderIn(pre, op, role) ==
+  LET g == AuthOps[op].grp IN
+  IF role \in GroupRoleNames /\ Has(pre, "groups") /\ Has(pre.groups, g) THEN pre.groups[g][role] ELSE AuthRoles[role]
+HoldersIn(pre, op) == {HolderIn(pre, op, AuthOps[op].role)} \cup {HolderIn(pre, op, AuthOps[op].also[i]) : i \in DOMAIN AuthOps[op].also}
 EntitledIn(pre, op, id, mode) ==
   IF AuthOps[op].role = "anyone" THEN TRUE
-  ELSE IF mode = "frozen" /\ op \in FrozenOps THEN id = HolderIn(pre, "admin")
+  ELSE IF mode = "frozen" /\ op \in FrozenOps THEN id = HolderIn(pre, op, "admin")
   ELSE id \in HoldersIn(pre, op)
 
 \* a successful group configuration leaves every role with exactly the key that was asked for
